@@ -183,6 +183,7 @@ class SchemaGen:
     def __init__(self, rng: random.Random, known: bool = False, odd_prefix: bool = False,
                  stream: Optional[str] = None):
         self.rng = rng
+        known = known or stream == "known"
         self.ng = NameGen(rng, known)
         self.known = known
         self.stream = stream or ("known" if known else "odd-prefix" if odd_prefix else "main")
